@@ -427,6 +427,7 @@ class WebSocketApp:
                 WebSocketConnectionClosedException,
                 KeyboardInterrupt,
                 SSLEOFError,
+                ConnectionError,
             ) as e:
                 if custom_dispatcher:
                     return closed(e)
@@ -476,7 +477,11 @@ class WebSocketApp:
                         or has_pong_arrived_too_late
                     )
                 ):
-                    raise WebSocketTimeoutException("ping/pong timed out")
+                    e = WebSocketTimeoutException("ping/pong timed out")
+                    if custom_dispatcher:
+                        # called from the external loop: nothing above us would route it
+                        return closed(e)
+                    raise e
             return True
 
         def closed(
